@@ -142,6 +142,12 @@ func burnOf(w *world.World, ctx sdk.Context, who string) (int64, bool) {
 
 // c03Run builds the configuration with real messages, runs the reward block under test and checks it.
 func c03Run(env world.Env, files []c03File, extraGauge bool, reg3 bool) mc.CaseResult {
+	return c03RunOpt(env, files, extraGauge, reg3, false)
+}
+
+// raiseWindow: governance raises the ProofWindow parameter (3 -> 10) after the files were posted; each file keeps the
+// proof window it was posted with, so nothing about the reward block under test may change.
+func c03RunOpt(env world.Env, files []c03File, extraGauge bool, reg3 bool, raiseWindow bool) mc.CaseResult {
 	w := env.W()
 	cr := mc.CaseResult{Class: "reward-block"}
 	u := w.A("U").Bech
@@ -210,6 +216,9 @@ func c03Run(env world.Env, files []c03File, extraGauge bool, reg3 bool) mc.CaseR
 				prove(i, p)
 			}
 		}
+	}
+	if raiseWindow {
+		setStorageParams(env, func(p *storagetypes.Params) { p.ProofWindow = 10 })
 	}
 	for h := 6; h <= 7; h++ {
 		if bp := env.NextBlock(day); bp != nil {
@@ -353,6 +362,11 @@ func c03Enum(thorough bool) mc.Enum {
 						e.Cases = append(e.Cases, mc.Case{Desc: fmt.Sprintf("one|%s|size=%d|extraGauge=%v|reg3=%v", failDesc(l, fail), size, extra, reg3), Run: func(env world.Env) mc.CaseResult {
 							return c03Run(env, []c03File{{f: bySize[size], size: size, list: l, fail: fail}}, extra, reg3)
 						}})
+						if size == 7 && !extra {
+							e.Cases = append(e.Cases, mc.Case{Desc: fmt.Sprintf("one|%s|size=%d|extraGauge=%v|reg3=%v|raiseWindow", failDesc(l, fail), size, extra, reg3), Run: func(env world.Env) mc.CaseResult {
+								return c03RunOpt(env, []c03File{{f: bySize[size], size: size, list: l, fail: fail}}, extra, reg3, true)
+							}})
+						}
 					}
 				}
 			}
